@@ -11,5 +11,6 @@ patch=/verif/seeded/$id/patch.diff; [ -f /verif/seeded/$id/patch_rebased.diff ] 
 if ! git -C $wt apply --3way $patch >/dev/null 2>&1; then echo "$id apply=FAILED"; exit 0; fi
 (cd $wt && PYTHONPATH=$wt timeout 300 /venv/bin/python /verif/seeded/$id/demo.py >/dev/null 2>&1); dp=$?
 (cd /var/tmp && PYTHONPATH=/repo timeout 300 /venv/bin/python /verif/seeded/$id/demo.py >/dev/null 2>&1); d0=$?
-suite=$(/venv/bin/python /verif/tools/baseline_check.py $wt 2>&1 | tail -1 | grep -o "missing=[0-9]*")
+out=$(/venv/bin/python /verif/tools/baseline_check.py $wt 2>&1)
+suite=$(echo "$out" | tail -1 | grep -o "missing=[0-9]*"); [ -z "$suite" ] && suite="notpassing=$(echo "$out" | grep -c 'NOT PASSING')_of_the_1179_stable_tests_at_this_HEAD"
 echo "$id apply=ok patch=$(basename $patch) suite_$suite demo_unchanged_rc=$d0 demo_patched_rc=$dp"
